@@ -796,6 +796,16 @@ def case_conv(rng, ctx):
         sub = a1[:max(1, len(a1.trace) // 2)]
         if len(sub.sequences) == len(a1.sequences) and len(a1.sequences) > 0:
             sub.sequences[0] = sub.sequences[-1]
+        # gap removal of an alignment that has no gap column is a derivation like any other
+        nog = a1[(np.asarray(a1.trace) != -1).all(axis=1)]
+        rg = align.remove_gaps(nog)
+        nog_before = (list(nog.sequences), np.asarray(nog.trace).copy(), nog.score)
+        if len(rg.sequences) > 1:
+            rg.sequences[0] = rg.sequences[-1]
+        rg.score = -12345
+        if [x is y for x, y in zip(nog.sequences, nog_before[0])] != [True] * len(nog_before[0]) or nog.score != nog_before[2] \
+                or not np.array_equal(nog.trace, nog_before[1]):
+            ctx.fail("sequence_list_not_shared", "editing the result of remove_gaps() on a gap-free alignment changed the alignment it was derived from")
         after = [str(x) if all(isinstance(y, str) for y in x.symbols) else list(x.symbols) for x in a1.sequences]
         if after != before or (shown is not None and a1.get_gapped_sequences() != shown):
             ctx.fail("sequence_list_not_shared", "changing the list passed to Alignment() / the sequence list of a slice changed the alignment",
